@@ -84,7 +84,7 @@ def gen_methods(tier, rng):
             if rng.chance(1, 4):
                 r.headers.append(("TE", rng.choice(["chunked", "identity"])))
             stream += r.render()
-            st = rng.choice([200, 204, 403, 404, 407, 500, 502])
+            st = rng.choice([200, 204, 205, 205, 403, 404, 407, 500, 502, 299])
             body = body_bytes("b%d.%d" % (i, k), rng.choice([0, 7, 1500]))
             acts.append(action_str([], respond_str(st, body, rng.chance(1, 2))))
             wu.append(hx(t))
